@@ -89,7 +89,9 @@ def judge(ctx, case, rec, leg):
     key = "%s|%s|%s" % (shape, "/".join(path), via_apply)
     if rec is None or "steps" not in rec:
         if rec and "abort" in rec:
-            d = dict(base, kind="abort", what="process died while running a tail loop (stack exhausted?)", abort=rec["abort"])
+            oom = "memory allocation of" in (rec["abort"].get("stderr") or "")
+            d = dict(base, kind="heap" if oom else "abort", what="process ran out of memory while running a tail loop" if oom else "process died while running a tail loop (stack exhausted?)",
+                     abort=rec["abort"], dedupe=key if shape != "internal-proc" else "internal-proc")
             ctx.violation(d, {"case": case})
         else:
             ctx.inconclusive_cases += 1
@@ -153,12 +155,14 @@ def run(tier, seed):
         for shape in SHAPES:
             for via_apply in ((False, True, "apply-apply", "apply-var") if len(path) == 0 else ((False, True) if len(path) <= 1 else (False,))):
                 for N in (40, bigN):
-                    cases.append({"shape": shape, "path": list(path), "via_apply": via_apply, "N": N})
+                    # the internal-procedure shape leaks (known finding KF-C02-cycle) and the leak stays in the driver process: keep its loops short
+                    cases.append({"shape": shape, "path": list(path), "via_apply": via_apply, "N": min(N, 4000) if shape == "internal-proc" else N})
     if tier == "thorough":
         # a few very long loops in release
         for shape in SHAPES:
             for path in [(), ("cond-arrow", "let"), ("when", "case-clause"), ("and", "or")]:
-                cases.append({"shape": shape, "path": list(path), "via_apply": False, "N": 200000, "only": "release"})
+                if shape != "internal-proc":
+                    cases.append({"shape": shape, "path": list(path), "via_apply": False, "N": 200000, "only": "release"})
     cases = core.mine(cases)
     ctx.rule = ("loops = tail-context path (every single context, %s compositions of two%s) x %d loop shapes x direct/apply call x N in {40, %d}; "
                 "stack depth and live heap sampled at every iteration by a native probe. distinct_nontrivial = distinct (shape, context path, call style) "
